@@ -123,9 +123,16 @@ func (h *ConsistentHash) Get(v any) (any, bool) {
 	case 1:
 		return nodes[0], true
 	default:
-		innerIndex := h.hashFunc([]byte(innerRepr(v)))
-		pos := int(innerIndex % uint64(len(nodes)))
-		return nodes[pos], true
+		// pick the node with the highest per-node score instead of an index into the bucket,
+		// so that a node joining or leaving the bucket only moves the keys it gains or loses
+		inner := innerRepr(v)
+		best, bestScore := nodes[0], h.hashFunc([]byte(inner+repr(nodes[0])))
+		for _, node := range nodes[1:] {
+			if score := h.hashFunc([]byte(inner + repr(node))); score > bestScore {
+				best, bestScore = node, score
+			}
+		}
+		return best, true
 	}
 }
 
